@@ -45,7 +45,9 @@ Ops == <<"+", "-", "*", "/", "%", "^", "==", "!=", "<", ">", "<=", ">=", "atan2"
 \* matching: [on, ml]
 Matchings == << [on |-> FALSE, ml |-> <<>>], [on |-> TRUE, ml |-> <<"a">>], [on |-> TRUE, ml |-> <<"a", "b">>],
                 [on |-> FALSE, ml |-> <<"b">>], [on |-> FALSE, ml |-> <<"b", "c">>], [on |-> TRUE, ml |-> <<>>],
-                [on |-> FALSE, ml |-> <<"b", "c", "A">>], [on |-> TRUE, ml |-> <<"c">>], [on |-> TRUE, ml |-> <<"a">>] >>
+                [on |-> FALSE, ml |-> <<"b", "c", "A">>], [on |-> TRUE, ml |-> <<"c">>], [on |-> TRUE, ml |-> <<"a">>],
+                \* a label named twice (legal)
+                [on |-> TRUE, ml |-> <<"a", "b", "a">>], [on |-> FALSE, ml |-> <<"b", "b", "c">>] >>
 \* cardinality + include labels
 Cards == << [card |-> "1:1", inc |-> <<>>], [card |-> "N:1", inc |-> <<>>], [card |-> "N:1", inc |-> <<"c">>],
             [card |-> "N:1", inc |-> <<"A", "c">>], [card |-> "1:N", inc |-> <<>>], [card |-> "1:N", inc |-> <<"c">>],
